@@ -20,7 +20,7 @@ def generate(G):
              skeleton={"rank": rank, "extents": "symbolic in 0..=%d" % mx, "length": ln, "side": "invalid => refused"})
     for depth, tier in ((1, "quick"), (2, "quick"), (3, "quick")):
         G.ob("c16_nested_d%d" % depth, "C16", "nested", "c16::nested(s, %d)" % depth, unwind=10, tier=tier, skeleton={"depth": depth})
-    for v, tier in ((0, "quick"), (1, "thorough"), (2, "quick")):
+    for v, tier in ((0, "quick"), (1, "thorough"), (2, "quick"), (3, "quick"), (4, "thorough")):
         G.ob("c16_nested_mismatch_%d" % v, "C16", "nested_mismatch", "c16::nested_mismatch(s, %d)" % v, unwind=8, tier=tier,
              kind="refusal", skeleton={"variant": v})
     for a, b, tier in (([2, 2], [2, 2], "quick"), ([2, 2], [4], "quick"), ([2, 2], [1, 4], "thorough"), ([3], [3], "thorough"),
